@@ -1,6 +1,6 @@
 #!/bin/bash
 # confirmseed.sh Cxx : in the scratch worktree /tmp/wt-Cxx apply each SEEDED/N/patch.diff alone and run the repository's tests
-id="$1"; wt=/tmp/wt-$id
+id="$1"; wt=${2:-/tmp/wt-$id}
 cd $wt || exit 2
 for n in 1 2; do
   [ -f SEEDED/$n/patch.diff ] || continue
